@@ -40,7 +40,7 @@ from deepali.spatial.base import SpatialTransform
 
 from . import frame_api
 
-FORMS = ["contig", "strided", "expand", "chlast", "grad", "transposed"]
+FORMS = ["contig", "strided", "expand", "chlast", "grad", "transposed", "typed"]
 
 
 # =========================================================================== argument context
@@ -60,6 +60,7 @@ class Ctx:
         self.tracked: List[Tuple[str, Tensor]] = []
         self.pristine: List[Tuple[Any, Tensor]] = []
         self._dup = None
+        self.typed: List[Tuple[str, Any, Any, Any]] = []
         self.grid = Grid(shape=self.shape, spacing=tuple([1.0, 1.5, 0.5][:D]))
         self.aliased_args = False
 
@@ -100,6 +101,15 @@ class Ctx:
         elif form == "transposed" and V.ndim >= 2:
             base = V.transpose(-1, -2).contiguous()
             view = base.transpose(-1, -2)
+        elif form == "typed" and floating and batch_dim and V.ndim == 2 + self.D and name in ("img", "img1", "flow", "prob", "unit", "mask", "maskC"):
+            # an image batch (tensor subclass carrying sampling grids) over the tracked storage: results are re-wrapped
+            # by __torch_function__, and the grids of the argument are part of what must stay as it was
+            from deepali.data import ImageBatch
+
+            base = V.clone()
+            g = Grid(shape=tuple(V.shape[2:]), spacing=tuple([1.0, 1.5, 0.5][: self.D]))
+            view = ImageBatch(base, g)
+            self.typed.append((f"{name}#{len(self.tracked)}:typed", view, view._grid, [self._grid_state(x) for x in view._grid]))
         elif form == "grad":
             base = V.clone().requires_grad_(True)
             view = base
@@ -109,6 +119,20 @@ class Ctx:
             view = base
         self._track(f"{name}#{len(self.tracked)}:{form}", base)
         return view
+
+    @staticmethod
+    def _grid_state(g: Grid):
+        return (tuple(int(n) for n in g.size()), g.center().tolist(), g.spacing().tolist(), g.direction().tolist(), bool(g.align_corners()))
+
+    def typed_args_changed(self):
+        """Name of the first typed argument whose grids are no longer the objects / values it was created with."""
+        for nm, view, grids, states in self.typed:
+            cur = getattr(view, "_grid", None)
+            if not isinstance(cur, tuple) or len(cur) != len(grids) or any(a is not b for a, b in zip(cur, grids)):
+                return nm, "grid objects replaced"
+            if [self._grid_state(x) for x in grids] != states:
+                return nm, "grid values changed"
+        return None
 
     def _track(self, name: str, base: Tensor):
         self.tracked.append((name, base))
@@ -198,6 +222,13 @@ class Ctx:
         self._next()
         t = torch.full(tuple(shape), float(value), dtype=torch.float32)
         self._track(f"scalar#{len(self.tracked)}:contig", t)
+        return t
+
+    def axisvec(self, values, dtype=torch.float32, name: str = "axisvec", n: Optional[int] = None) -> Tensor:
+        """A per-axis option (``sigma``, ``size``, ``margin`` ...) given as tracked 1-D tensor with one entry per spatial axis."""
+        self._next()
+        t = torch.tensor(list(values)[: (n or self.D)], dtype=dtype)
+        self._track(f"{name}#{len(self.tracked)}:contig", t)
         return t
 
     def spacing_arg(self):
@@ -919,6 +950,13 @@ class FrameWorld:
                 viol.append(Violation("C15", "argument-mutated", f"argument-mutated/{name}/{role}:{form}" + ("" if at == "after" else "@" + at),
                                       {"arg": nm, "what": "values" if same_meta else "meta", "at": at, "aliased_args": c.aliased_args}))
                 break
+        if not viol and c.typed:
+            self.c["checks"]["frame:typed_argument_grids"] += len(c.typed)
+            bad = c.typed_args_changed()
+            if bad is not None:
+                role = bad[0].split("#")[0]
+                viol.append(Violation("C15", "argument-mutated", f"argument-mutated/{name}/{role}:typed-grid" + ("" if at == "after" else "@" + at),
+                                      {"arg": bad[0], "what": bad[1], "at": at}))
         after_pool = self.snapshot()
         viol += self.frame_check(before_pool, after_pool, None, "none", "func:" + name, "-", at=at)
         return status, result, viol
